@@ -98,9 +98,14 @@ func (c14NetConn) SetWriteDeadline(t time.Time) error { return nil }
 
 type c14CB struct{ local, remote, data int }
 
-func (c *c14CB) OnData(r BufferReader) { c.data++; n := r.Len(); r.ReadBytes(n); r.ReleasePreviousRead() }
-func (c *c14CB) OnLocalClose()         { c.local++ }
-func (c *c14CB) OnRemoteClose()        { c.remote++ }
+func (c *c14CB) OnData(r BufferReader) {
+	c.data++
+	n := r.Len()
+	r.ReadBytes(n)
+	r.ReleasePreviousRead()
+}
+func (c *c14CB) OnLocalClose()  { c.local++ }
+func (c *c14CB) OnRemoteClose() { c.remote++ }
 
 func H_C14_close() {
 	c14OS = osModel{}
